@@ -121,6 +121,8 @@ c.ensures('cookie-exactly-when-configured',
           "result['headers'] == ([('Set-Cookie', cookie_value(" + NEW_SID + ", "
           "{'name': self.cookie, 'path': '/', 'SameSite': 'Lax'}))] if self.cookie else []) + "
           "[('Content-Type', 'text/plain; charset=UTF-8')])", props=['C11'])
+c.ensures('polling-open-sends-no-response-itself', "implies(transport == 'polling', "
+          "sr_log == old(sr_log))", props=['C15'])
 c.ensures('polling-accept-or-reject-adds-no-other-event', "implies(transport == 'polling', "
           "len(events) == len(old(events)) + 1)", props=['C05'])
 c.modifies('self.sockets', 'self.sequence_number', 'self.start_service_task',
@@ -201,9 +203,11 @@ for cls, mod in (('Server', 'server'), ('AsyncServer', 'async_server')):
 from .c_base_server import CFG_OK  # noqa: E402
 NOTHING = ("self.sockets == old(self.sockets) and events == old(events) and "
            "spawned == old(spawned) and csprng == old(csprng) and received == old(received) and "
-           "unchanged('Queue.items', 'Queue.taken', 'Queue.accepted', 'BaseSocket.closing', "
+           "unchanged('Queue.items', 'Queue.taken', 'Queue.accepted', 'Queue.unf', "
+           "'Queue.put_none', 'Queue.taken_none', 'BaseSocket.closing', "
            "'BaseSocket.closed', 'BaseSocket.upgraded', 'BaseSocket.upgrading', "
-           "'BaseSocket.connected')")
+           "'BaseSocket.connected', 'Packet.encode_cache') and "
+           "self.sequence_number == old(self.sequence_number)")
 NOTHING_BUT_REAPING = NOTHING.replace(
     "self.sockets == old(self.sockets) and",
     "(self.sockets == old(self.sockets) or (q_sid(environ) is not None and "
@@ -229,12 +233,12 @@ c.may_raise('Exception', 'is_websocket_request(self, environ)', label='websocket
 c.ensures('origin-gate-first', "implies(origin_refused(self.cors_allowed_origins, environ), "
           "sr_log == ['400 BAD REQUEST'] and " + NOTHING + ")", props=['C13'])
 c.ensures('refused-400-has-no-effect', "implies(not origin_refused(self.cors_allowed_origins, "
-          "environ) and refusal(self, environ) == 400, sr_log == ['400 BAD REQUEST'] and " +
+          "environ) and old(refusal(self, environ)) == 400, sr_log == ['400 BAD REQUEST'] and " +
           NOTHING_BUT_REAPING + ")", props=['C12'])
 c.ensures('refused-405-has-no-effect', "implies(not origin_refused(self.cors_allowed_origins, "
-          "environ) and refusal(self, environ) == 405, sr_log == ['405 METHOD NOT FOUND'] and " +
+          "environ) and old(refusal(self, environ)) == 405, sr_log == ['405 METHOD NOT FOUND'] and " +
           NOTHING + ")", props=['C12'])
-c.ensures('one-well-formed-response', "implies(not is_websocket_request(self, environ), "
+c.ensures('one-well-formed-response', "implies(not old(is_websocket_request(self, environ)), "
           "len(sr_log) == 1 and sr_log[0] in ('200 OK', '400 BAD REQUEST', '401 UNAUTHORIZED', "
           "'405 METHOD NOT FOUND') and len(result) == 1)", props=['C15'])
 c.modifies('self.sockets', 'self.sequence_number', 'self.start_service_task',
@@ -243,16 +247,30 @@ c.modifies('self.sockets', 'self.sequence_number', 'self.start_service_task',
            'Queue.accepted', 'Queue.put_none', 'Queue.taken_none', 'Packet.encode_cache',
            'ghost.csprng', 'ghost.events', 'ghost.spawned', 'ghost.now', 'ghost.ws_log',
            'ghost.received', 'ghost.reads', 'ghost.sr_log', 'ghost.sr_headers')
-c.loop(1, index='i', invariants=[('true', 'True')], modifies=['r'])
+c.ghost_before('if self.http_compression and', 'r0', 'r')
+c.loop(1, index='i', invariants=[('status-kept', "r['status'] == r0['status']")],
+       modifies=['r'])
 NOT_GATED = 'not origin_refused(self.cors_allowed_origins, environ)'
+c.cut('if jsonp and jsonp_index is None:', [
+    ('gate-passed', NOT_GATED),
+    ('nothing-yet', 'len(sr_log) == 0 and ' + NOTHING),
+    ('method', "method == environ['REQUEST_METHOD']"),
+    ('query', 'query == q_of(environ)'),
+    ('transport', 'transport == q_transport(environ) and transport in self.transports'),
+    ('sid', 'sid == q_sid(environ)'),
+    ('version', "implies(sid is None, query.get('EIO') == ['4'])"),
+    ('jsonp-flag', "jsonp == ('j' in query)"),
+    ('jsonp-index', "implies(jsonp and jsonp_index is None, jsonp_bad(environ)) and "
+     "implies(jsonp_index is not None, jsonp and not jsonp_bad(environ))"),
+])
 c.cut('if not isinstance(r, dict):', [
     ('no-response-yet', 'len(sr_log) == 0'),
-    ('refused-400', 'implies(' + NOT_GATED + " and refusal(self, environ) == 400, "
+    ('refused-400', 'implies(' + NOT_GATED + " and old(refusal(self, environ)) == 400, "
      "r['status'] == '400 BAD REQUEST' and " + NOTHING_BUT_REAPING + ')'),
-    ('refused-405', 'implies(' + NOT_GATED + " and refusal(self, environ) == 405, "
+    ('refused-405', 'implies(' + NOT_GATED + " and old(refusal(self, environ)) == 405, "
      "r['status'] == '405 METHOD NOT FOUND' and " + NOTHING + ')'),
     ('gate-passed', NOT_GATED),
-    ('non-dict-only-for-websocket', 'isinstance(r, dict) or is_websocket_request(self, environ)'),
+    ('non-dict-only-for-websocket', 'isinstance(r, dict) or old(is_websocket_request(self, environ))'),
     ('status-line', "implies(isinstance(r, dict), r['status'] in ('200 OK', '400 BAD REQUEST', "
      "'401 UNAUTHORIZED', '405 METHOD NOT FOUND'))"),
 ])
